@@ -38,6 +38,9 @@ def gen_script(rng, faults=False, fixed=None, nops=None, shrink=True):
             lines.append('raii %d %d' % (k1, k2 - k1 - 1))
             depth = k1 + 1
             recorded = recorded[:reclen[k1]]; reclen = reclen[:k1 + 1]
+        elif r < 0.845:
+            # a moved-from unwind guard dies before its target, allocations in between (harness expands it to top / a / a / unwind)
+            lines.append('raii2'); depth += 1; reclen.append(len(recorded))
         elif r < 0.86 and shrink:
             lines.append('shrink'); clean = False
         elif r < 0.92:
